@@ -26,6 +26,13 @@ def scenario(rng):
         provs=rng.choice([["sm"], ["sm", "model"], ["sm", "model", "l1"]]))
     d = scn["classes"][0]
     ids = [s["id"] for s in d["states"]]
+    # state values of every kind (a stored 0, "" or () is a stored state like any other)
+    from checks import c10
+    scheme = rng.choice(c10.SCHEMES)
+    order = list(range(len(ids)))
+    rng.shuffle(order)
+    for s, k in zip(d["states"], order):
+        s["value"] = c10.value_for(scheme, k, rng)
     new = scn["steps"][0]
     has_coro = any(cb["coro"] for cb in d["cbs"])
     if has_coro:
